@@ -149,6 +149,11 @@ pub trait LoopUpdater: OpContainer + Factory<Vec<Leg>> + Factory<Vec<f64>> {
             // Get starting leg for pth op.
             let op = self.get_node_ref(nth_p).unwrap();
             let n_vars = op.get_op_ref().get_vars().len();
+            // An op which covers no variables (a constant term) has no legs to enter.
+            if n_vars == 0 {
+                self.post_loop_update_hook();
+                return;
+            }
             let initial_var = rng.gen_range(0..n_vars);
             let initial_direction = if rng.gen() {
                 OpSide::Inputs
